@@ -311,7 +311,7 @@ def declare_before_use(ctx: Ctx) -> None:
     attr_ns = [n for n in g.stmts() if n.kind == "for" and "self.attrs" in unparse(n.ast.iter)]
     ctx.ob("flush_start: attribute namespaces are registered before start_namespaces()", bool(attr_ns) and all(
         g.must_pass(g.entry, s.id, [a.id for a in attr_ns]) for s in sn) and any(
-        is_call_to_self(c, "add_namespace") for a in attr_ns for c in calls_in(a.ast)), at=flush, construct="attrs namespace loop",
+        _may_bind_prefix(ctx, flush, c, set(binders)) for a in attr_ns for c in calls_in(a.ast)), at=flush, construct="attrs namespace loop",
         msg="attribute namespaces are not all given a prefix before declarations are sent")
     rd = [n for n in g.stmts() if any(is_call_to_self(c, "reset_default_namespace") for c in node_calls(n))]
     ctx.ob("flush_start: reset_default_namespace() on every path to start_namespaces()", bool(rd) and all(g.must_pass(g.entry, s.id, [r.id for r in rd]) for s in sn),
@@ -610,3 +610,59 @@ def meta_is_never_inherited(ctx: Ctx) -> None:
                 n += 1
                 ctx.ob(f"{m.name}: Meta is not looked up with getattr (which follows inheritance)", False, at=m, node=node, msg="getattr(cls, 'Meta') returns an inherited Meta")
     ctx.floor("Meta reads in the metadata builder", n, 2)
+
+
+@rule("C03.R8")
+def character_guard(ctx: Ctx) -> None:
+    """Text and attribute values pass a check of the XML 1.0 Char production before they reach the content handler."""
+    eh = ctx.repo.cls(EH)
+    family = [eh, *eh.all_subclasses()]
+    sinks = []
+    for c in family:
+        for m in c.methods.values():
+            for call in calls_in(m.node):
+                if unparse(call.func) in ("self.handler.characters", "self.handler.startElementNS"):
+                    sinks.append((m, call))
+    if len(sinks) < 2:
+        raise AnalysisError("C03.R8: content handler sinks not found")
+    # a guard is any function on the way (set_data / add_attribute / set_characters / start_element / encode_data) that applies a regex or
+    # a character-range test to the value and raises a serializer / writer error
+    guards = []
+    for c in family:
+        for m in c.methods.values():
+            if m.name not in ("set_data", "add_attribute", "set_characters", "start_element", "encode_data", "flush_start"):
+                continue
+            has_test = any(isinstance(x, ast.Call) and isinstance(x.func, ast.Attribute) and x.func.attr in ("search", "match", "fullmatch", "isprintable", "translate") for x in walk_no_nested(m.node))
+            raises = any(isinstance(x, ast.Raise) and x.exc is not None and any(e in unparse(x.exc) for e in ("XmlWriterError", "SerializerError")) for x in walk_no_nested(m.node))
+            if has_test and raises:
+                guards.append(m.qual)
+    for m, call in sinks:
+        what = "character data" if "characters" in unparse(call.func) else "attribute values"
+        ctx.ob(f"{m.cls.name}.{m.name}: {what} are checked against the XML Char production before {unparse(call.func)}", bool(guards), at=m, node=call, construct=f"char guard {m.name}",
+               msg="a value containing e.g. \\x01 is handed to the backend unchecked: the native writer emits a document no parser accepts, the lxml writer raises a bare ValueError")
+    ctx.note("C03.R8 guards", guards)
+
+
+@rule("C03.R11")
+def default_namespace_never_qualifies_attributes_or_values(ctx: Ctx) -> None:
+    """Attribute namespaces get a named prefix (the default namespace does not apply to attributes); QName values do not rely on a default that may be reset."""
+    flush = ctx.repo.method(EH, "flush_start")
+    loops = [n for n in walk_no_nested(flush.node) if isinstance(n, ast.For) and "self.attrs" in unparse(n.iter)]
+    callee = None
+    for lp in loops:
+        for c in calls_in(lp):
+            if isinstance(c.func, ast.Attribute) and is_self_attr(c.func, None, ("self",)):
+                callee = ctx.repo.cls(EH).find_method(c.func.attr)
+    ok = False
+    if callee is not None:
+        # the guard that skips prefix generation must require a truthy (named) prefix bound to the uri
+        src = A(unparse(callee.node))
+        ok = "generate_prefix(" in src and ("prefixand" in src or "ifprefix" in src or "prefixisnotNone" in src) and "prefix_exists(" not in src
+    ctx.ob("flush_start: every attribute namespace is given a NAMED prefix (a default-namespace binding does not count)", ok, at=flush, node=loops[0] if loops else None, construct="attribute prefix",
+           msg="with ns_map={None: uri} a qualified attribute in that namespace is written without a prefix by the native writer, i.e. as an unqualified attribute")
+    qs = ctx.repo.func("xsdata.formats.converter:QNameConverter.serialize")
+    resets = [m.qual for c in [ctx.repo.cls(EH), *ctx.repo.cls(EH).all_subclasses()] for m in c.methods.values()
+              for st, tgt, v in stores(m.node) if isinstance(tgt, ast.Subscript) and isinstance(tgt.slice, ast.Constant) and tgt.slice.value is None and is_self_attr(tgt.value, "ns_map")]
+    unprefixed = any(isinstance(r.value, ast.IfExp) and unparse(r.value.orelse) == "tag" and "prefix" in unparse(r.value.test) for r in walk_no_nested(qs.node) if isinstance(r, ast.Return))
+    ctx.ob("QName values are not written unprefixed through a default namespace that the writer may reset on the same element", not (unprefixed and resets), at=qs, construct="qname default prefix",
+           msg="QNameConverter.serialize returns the bare local name when the namespace is bound as default; reset_default_namespace then emits xmlns=\"\" on an unqualified element and the value denotes another QName")
